@@ -65,6 +65,20 @@ def gen(rng, knobs):
             h.add(rng.choice(h.events))        # resubmission
         else:
             h.add(h.regular())
+        if rng.random() < 0.06:
+            # an event with very many indexable tags (a big contact list), often replaced or deleted right away
+            big_kind = rng.choice([3, 1, 10002, 30000])
+            n_tags = rng.choice([40, 65, 70, 130, 260])
+            big = h.regular(author=0, kind=big_kind, tags=[["p", histgen.hexid(rng)] for _ in range(n_tags)] +
+                            ([["d", "x"]] if big_kind == 30000 else []))
+            h.add(big)
+            m = rng.random()
+            if m < 0.3:
+                h.ops.append(["del", big["id"]])
+            elif m < 0.6 and big_kind != 1:
+                h.add(h.regular(author=0, kind=big_kind, created_at=big["created_at"] + 1,
+                                tags=[["p", histgen.hexid(rng)] for _ in range(rng.choice([2, 70]))] +
+                                ([["d", "x"]] if big_kind == 30000 else [])))
     faults = []
     if rng.random() < 0.5:
         for _ in range(rng.randint(1, 4)):
